@@ -11,7 +11,7 @@ pub fn check(case: &StreamCase) -> Outcome {
     out.class(format!("entry:{:?}", case.entry));
     let block = case.cfg.block_size;
     let r = case.inp.len % block;
-    let run = match run_stream(case) {
+    let mut run = match run_stream(case) {
         Ok(r) => r,
         Err(e) => {
             out.class(format!("skipped:{}", match e {
@@ -85,6 +85,28 @@ pub fn check(case: &StreamCase) -> Outcome {
             }
         }
     }
+    // "length unknown": a caller may declare the total number of samples unknown (0, RFC 9639 8.2) after assembling
+    // the stream; the frame-size bounds of the frames that are present must be written all the same
+    if case.inp.seed % 2 == 0 {
+        run.stream.stream_info_mut().set_total_samples(0);
+        let s2 = &run.stream;
+        match crate::util::catch(|| enc::stream_bytes(s2, enc::sane_bits(run.samples.len() + 4096, case.inp.bps))) {
+            Ok(Ok(b2)) if b2.len() >= 42 => {
+                let mnf = u32::from_be_bytes([0, b2[12], b2[13], b2[14]]) as usize;
+                let mxf = u32::from_be_bytes([0, b2[15], b2[16], b2[17]]) as usize;
+                out.class("variant:total-samples-unknown(0)");
+                if mnf != mn || mxf != mx || b2[..8] != run.bytes[..8] || b2[42..] != run.bytes[42..] {
+                    out.viol("frame-size-bounds-lost-when-total-is-unknown", format!("after set_total_samples(0) the stream states frame sizes {mnf}..{mxf}, the frames have {mn}..{mx} bytes; {ctxs}"));
+                    return out;
+                }
+            }
+            Ok(Ok(_)) | Ok(Err(_)) => out.class("skipped:unknown-total-variant-unwritable"),
+            Err(p) => {
+                out.viol(format!("unknown-total-variant-{}", normalise(&p.sig())), p.msg);
+                return out;
+            }
+        }
+    }
     if r != 0 {
         out.nontrivial = true;
         out.class(if r < 16 { "final-block:<16" } else { "final-block:short" });
@@ -102,7 +124,7 @@ fn simple_input(len: usize, seed: u64) -> InputSpec {
 pub fn run(ctx: &Ctx) {
     ctx.rule(
         "exhaustive part: every input length k*B + r for B in {32, 192}, r in 0..B, k in 0..=2, single- and multi-thread; many-frames part: streams of 127..4100 (thorough: up to 70000) frames of 32/64 samples (silence, tone, quiet-then-loud) through all three entry points, so that the smallest / largest frames carry multi-byte frame numbers; generated part: (config, input, entry point) with final-block residues 1..=15 forced in 30% of cases; \
-         oracle from the reference decoder's trace: max_block = requested, 16 <= min_block <= every non-final frame, min/max frame size = smallest/largest emitted frame, claxon accepts; \
+         oracle from the reference decoder's trace: max_block = requested, 16 <= min_block <= every non-final frame, min/max frame size = smallest/largest emitted frame, claxon accepts; half of the cases are serialised again after set_total_samples(0) (length unknown): the frame-size bounds and every frame byte must be unchanged; \
          non-trivial = final block shorter than the block size (r != 0); distinct by case hash",
     );
     ctx.assume("for the frame-level entry point the caller finalises STREAMINFO; block-size bounds are judged on the two stream-level entry points, frame-size bounds on all three");
